@@ -306,6 +306,14 @@ def validate_multi(makers, extra_opts=(), threads=1):
     sep = '-' * 80
     if threads == 1:
         ok = m.status == rs and _norm(m.stdout) == _norm(rout)
+    elif '-j' in argv or '-jj' in argv:
+        # completion order is up to the real scheduler: compare the array elements as a multiset
+        import json
+        try:
+            a, b = json.loads(m.stdout), json.loads(rout)
+            ok = m.status == rs and sorted(json.dumps(x, sort_keys=True) for x in a) == sorted(json.dumps(x, sort_keys=True) for x in b)
+        except ValueError:
+            ok = False
     else:
         ok = m.status == rs and sorted(_norm(b) for b in m.stdout.split(sep)) == sorted(_norm(b) for b in rout.split(sep))
     return ok, {'argv': argv, 'model_status': m.status, 'real_status': rs, 'model_stdout': m.stdout[-300:], 'real_stdout': rout[-300:], 'real_stderr': rerr[-200:]}
